@@ -55,6 +55,8 @@ structure Inst (α : Type) where
   canTickP2 : Bool := false
   renew : Nat
   stats : List (Nat × α) := []
+  /-- the instance's own weakness entries (damage type ↦ weak / explicitly not weak) -/
+  weak : List (Nat × Bool) := []
 deriving Inhabited
 
 /-- what a caller passes to `AddModifier` -/
@@ -67,6 +69,7 @@ structure Desc (α : Type) where
   countAdd : Int := 0
   tickImm : Bool := false
   stats : List (Nat × α) := []
+  weak : List (Nat × Bool) := []
 
 inductive Ev (α : Type)
   | added (t : Int) (i : Inst α)
@@ -130,7 +133,7 @@ def newInstance (cat : Catalog α) (s : St α) (d : Desc α) : Inst α :=
   let count := if (c.stacking == 1 || c.stacking == 2 || c.stacking == 6) && count ≤ 0 && countAdd > 0
                then countAdd else count
   { uid := s.nextUid, name := d.name, source := d.source, dur := dur, count := count, maxCount := maxCount,
-    countAdd := countAdd, tickImm := d.tickImm, renew := s.turnCount, stats := d.stats }
+    countAdd := countAdd, tickImm := d.tickImm, renew := s.turnCount, stats := d.stats, weak := d.weak }
 
 def stackCount (i : Inst α) (prev : Int) : Int :=
   if prev < 0 || i.count < 0 then i.count
@@ -408,5 +411,10 @@ def propTotal (base : List (Nat × α)) (l : List (Inst α)) (p : Nat) : α :=
       (if p == 90 || p == 91 then 1 - (1 - a) * (1 - q.2) else a + q.2) else a) acc) (0 : α)
   base.foldl (fun a q => if q.1 == p && Num.neb q.2 0 then
       (if p == 90 || p == 91 then 1 - (1 - a) * (1 - q.2) else a + q.2) else a) fromMods
+
+/-- a unit's weaknesses: the damage types some contributor (the unit itself or an attached instance)
+marks as weak — entries that say "not weak" never take a weakness away (`WeaknessMap.AddAll`) -/
+def weakTo (base : List (Nat × Bool)) (l : List (Inst α)) (t : Nat) : Bool :=
+  base.contains (t, true) || l.any fun i => i.weak.contains (t, true)
 
 end Modifier
